@@ -1,0 +1,210 @@
+//go:build verif
+
+// Machine-checked contracts for package goldilocks (comment-only; compiled only with
+// the build tag `verif`, and even then it contains no code).  Read by /verif/bin/govc.
+//
+// Notation: P = 2^64-2^32+1 (Goldilocks), R = BN254 scalar modulus.  A frontend.Variable
+// is an integer in [0,R).  `circuit` functions are verified twice: SOUND (hint outputs are
+// arbitrary, emitted constraints are assumptions, `ensures` must follow) and COMPLETE
+// (hint outputs are the hint function's own contract values, `honest` premises hold,
+// every emitted constraint and every range check must hold).
+package goldilocks
+
+//@ def canon(v) = 0 <= v.Limb && v.Limb < P
+//@ def canonQE(q) = canon(q[0]) && canon(q[1])
+//@ def chipok(p) = 0 <= p.rangeCheckerType && p.rangeCheckerType <= 2 && rckind(p.rangeChecker) == p.rangeCheckerType
+//@ def aligned(p, n) = implies(p.rangeCheckerType == COMMIT, n % 16 == 0)
+//@ def sameCollected(p, q) = len(p) == len(q) && forall(k, 0, len(p), p[k] == q[k])
+
+//@ mapinv poseidonChips(v) = chipok(v) && implies(v.rangeCheckerType == COMMIT, deferred("goldilocks.Chip.checkCollected", v))
+
+// ------------------------------------------------------------------ hints (plain Go)
+
+//@ func MulAddHint(_ *big.Int, inputs []*big.Int, results []*big.Int) (err error)
+//@   props C05 C07 C02
+//@   plain nopanic
+//@   requires len(inputs) == 3 && len(results) == 2
+//@   requires forall(k, 0, 3, 0 <= inputs[k] && inputs[k] < P)
+//@   ensures err == nil
+//@   ensures results[0] == (inputs[0]*inputs[1] + inputs[2]) / P
+//@   ensures results[1] == (inputs[0]*inputs[1] + inputs[2]) % P
+
+//@ func ReduceHint(_ *big.Int, inputs []*big.Int, results []*big.Int) (err error)
+//@   props C05 C07 C02
+//@   plain nopanic
+//@   requires len(inputs) == 1 && len(results) == 2
+//@   requires 0 <= inputs[0]
+//@   ensures err == nil
+//@   ensures results[0] == inputs[0] / P
+//@   ensures results[1] == inputs[0] % P
+
+//@ func InverseHint(_ *big.Int, inputs []*big.Int, results []*big.Int) (err error)
+//@   props C05 C07 C02
+//@   plain nopanic
+//@   requires len(inputs) == 1 && len(results) == 1
+//@   requires 0 <= inputs[0] && inputs[0] < P
+//@   ensures err == nil
+//@   ensures 0 <= results[0] && results[0] < P
+//@   ensures implies(inputs[0] != 0, (results[0] * inputs[0]) % P == 1)
+
+//@ func SplitLimbsHint(_ *big.Int, inputs []*big.Int, results []*big.Int) (err error)
+//@   props C05 C06 C02
+//@   plain nopanic
+//@   requires len(inputs) == 1 && len(results) == 2
+//@   requires 0 <= inputs[0] && inputs[0] < P
+//@   ensures err == nil
+//@   ensures results[0] == inputs[0] / pow2(32)
+//@   ensures results[1] == inputs[0] % pow2(32)
+
+// ------------------------------------------------------------------ range checks
+
+//@ func (pl bitDecompChecker) Check(v frontend.Variable, nbBits int)
+//@   props C06
+//@   circuit
+//@   requires 1 <= nbBits && nbBits <= 253
+//@   honest v < pow2(nbBits)
+//@   ensures v < pow2(nbBits)
+
+//@ func (p *Chip) rangeCheckerCheck(x frontend.Variable, nbBits int)
+//@   props C05 C06 C14 C17
+//@   circuit
+//@   requires chipok(p)
+//@   requires 1 <= nbBits && nbBits <= 253
+//@   complete_requires aligned(p, nbBits)
+//@   honest x < pow2(nbBits)
+//@   modifies p.rangeCheckCollected
+//@   sound_ensures[direct] implies(p.rangeCheckerType != COMMIT, x < pow2(nbBits))
+//@   ensures[collect] implies(p.rangeCheckerType == COMMIT,
+//@              len(p.rangeCheckCollected) == old(len(p.rangeCheckCollected)) + 1 &&
+//@              p.rangeCheckCollected[old(len(p.rangeCheckCollected))].v == x &&
+//@              p.rangeCheckCollected[old(len(p.rangeCheckCollected))].bits == nbBits &&
+//@              forall(k, 0, old(len(p.rangeCheckCollected)), p.rangeCheckCollected[k] == old(p.rangeCheckCollected[k])))
+//@   ensures[frame] implies(p.rangeCheckerType != COMMIT, sameCollected(p.rangeCheckCollected, old(p.rangeCheckCollected)))
+//@   sound_ensures[deferred] implies(p.rangeCheckerType == COMMIT, x < pow2(nbBits))
+
+//@ func getOptimalBasewidth(api frontend.API, collected []checkedVariable) (res int)
+//@   props C06
+//@   plain
+//@   flag trusted
+//@   ensures true
+
+//@ func (p *Chip) checkCollected(api frontend.API) (err error)
+//@   props C06
+//@   circuit sound-only
+//@   requires chipok(p)
+//@   requires forall(k, 0, len(p.rangeCheckCollected), 1 <= p.rangeCheckCollected[k].bits && p.rangeCheckCollected[k].bits <= 253)
+//@   ensures p.rangeCheckerType == COMMIT
+//@   ensures forall(k, 0, len(p.rangeCheckCollected),
+//@              p.rangeCheckCollected[k].bits % 16 == 0 &&
+//@              p.rangeCheckCollected[k].v < pow2(p.rangeCheckCollected[k].bits))
+//@   loop 0 invariant -1 <= rangeindex && rangeindex < len(p.rangeCheckCollected) && nbBits == 16 &&
+//@              forall(k, 0, rangeindex + 1,
+//@                p.rangeCheckCollected[k].bits % 16 == 0 &&
+//@                p.rangeCheckCollected[k].v < pow2(p.rangeCheckCollected[k].bits))
+
+//@ func New(api frontend.API) (res *Chip)
+//@   props C06
+//@   circuit sound-only
+//@   ensures chipok(res)
+//@   ensures implies(res.rangeCheckerType == COMMIT, deferred("goldilocks.Chip.checkCollected", res))
+
+//@ func (p *Chip) RangeCheck(x Variable)
+//@   props C05 C06 C07 C17
+//@   circuit
+//@   requires chipok(p)
+//@   honest x.Limb < P
+//@   ensures x.Limb < P
+
+//@ func (p *Chip) RangeCheckWithMaxBits(x Variable, maxNbBits uint64)
+//@   props C06 C14
+//@   circuit
+//@   requires chipok(p)
+//@   requires 1 <= maxNbBits && maxNbBits <= 253
+//@   complete_requires aligned(p, maxNbBits)
+//@   honest x.Limb < pow2(maxNbBits)
+//@   ensures x.Limb < pow2(maxNbBits)
+
+// ------------------------------------------------------------------ base field gadgets
+
+//@ func (p *Chip) MulAdd(a Variable, b Variable, c Variable) (res Variable)
+//@   props C05 C07
+//@   circuit
+//@   requires chipok(p)
+//@   requires canon(a) && canon(b) && canon(c)
+//@   ensures res.Limb == (a.Limb*b.Limb + c.Limb) % P
+
+//@ func (p *Chip) Add(a Variable, b Variable) (res Variable)
+//@   props C07
+//@   circuit
+//@   requires chipok(p)
+//@   requires canon(a) && canon(b)
+//@   ensures res.Limb == (a.Limb + b.Limb) % P
+
+//@ func (p *Chip) Sub(a Variable, b Variable) (res Variable)
+//@   props C07
+//@   circuit
+//@   requires chipok(p)
+//@   requires canon(a) && canon(b)
+//@   ensures res.Limb == (a.Limb - b.Limb) % P
+
+//@ func (p *Chip) Mul(a Variable, b Variable) (res Variable)
+//@   props C07
+//@   circuit
+//@   requires chipok(p)
+//@   requires canon(a) && canon(b)
+//@   ensures res.Limb == (a.Limb * b.Limb) % P
+
+//@ func (p *Chip) AddNoReduce(a Variable, b Variable) (res Variable)
+//@   props C07
+//@   circuit
+//@   ensures res.Limb == (a.Limb + b.Limb) % R
+//@   ensures implies(a.Limb + b.Limb < R, res.Limb % P == (a.Limb + b.Limb) % P)
+
+//@ func (p *Chip) SubNoReduce(a Variable, b Variable) (res Variable)
+//@   props C07
+//@   circuit
+//@   ensures res.Limb == (a.Limb + b.Limb * (P - 1)) % R
+//@   ensures implies(a.Limb + b.Limb * (P - 1) < R, res.Limb % P == (a.Limb - b.Limb) % P)
+
+//@ func (p *Chip) MulNoReduce(a Variable, b Variable) (res Variable)
+//@   props C07
+//@   circuit
+//@   ensures res.Limb == (a.Limb * b.Limb) % R
+//@   ensures implies(a.Limb * b.Limb < R, res.Limb % P == (a.Limb * b.Limb) % P)
+
+//@ func (p *Chip) MulAddNoReduce(a Variable, b Variable, c Variable) (res Variable)
+//@   props C07
+//@   circuit
+//@   ensures res.Limb == (a.Limb * b.Limb + c.Limb) % R
+//@   ensures implies(a.Limb * b.Limb + c.Limb < R, res.Limb % P == (a.Limb * b.Limb + c.Limb) % P)
+
+//@ func (p *Chip) ReduceWithMaxBits(x Variable, maxNbBits uint64) (res Variable)
+//@   props C05 C07
+//@   circuit
+//@   requires chipok(p)
+//@   requires 1 <= maxNbBits && maxNbBits <= 189
+//@   complete_requires aligned(p, maxNbBits)
+//@   honest x.Limb < pow2(maxNbBits) * P
+//@   ensures res.Limb == x.Limb % P
+
+//@ func (p *Chip) Reduce(x Variable) (res Variable)
+//@   props C05 C07
+//@   circuit
+//@   requires chipok(p)
+//@   honest x.Limb < pow2(144) * P
+//@   ensures res.Limb == x.Limb % P
+
+//@ func (p *Chip) Inverse(x Variable) (inv Variable, hasInv frontend.Variable)
+//@   props C05 C07
+//@   circuit
+//@   requires chipok(p)
+//@   requires canon(x)
+//@   ensures canon(inv)
+//@   ensures hasInv == ite(x.Limb == 0, 0, 1)
+//@   ensures implies(x.Limb != 0, (inv.Limb * x.Limb) % P == 1)
+
+//@ func (p *Chip) AssertIsEqual(x Variable, y Variable)
+//@   props C07
+//@   circuit
+//@   honest x.Limb == y.Limb
+//@   ensures x.Limb == y.Limb
